@@ -399,14 +399,14 @@ def run_check(pid, tier, seed, nworkers):
     try:
         jobs = []
         for hs_i, hs in enumerate((0, 1 + splitmix64(seed, "hs", 1) % 4000000000, 1 + splitmix64(seed, "hs", 2) % 4000000000)):
-            jobs.append(({"job": "table", "name": "table%d" % hs_i, "out": os.path.join(wd, "table%d.json" % hs_i), "wall_s": wall}, hs))
+            jobs.append(({"job": "table", "name": "table%d" % hs_i, "out": os.path.join(wd, "table%d.json" % hs_i), "wall_s": wall, "env_variant": hs_i}, hs))
         for w in range(nworkers):
             jobs.append(({"job": "runs", "name": "w%d" % w, "prop": pid, "tier": tier, "seed": seed, "w": w, "n": nworkers, "work": work,
                           "out": os.path.join(wd, "w%d.json" % w), "wall_s": wall}, 1 + splitmix64(seed, "whs", w) % 4000000000))
         sampled = [(s, c) for s, c in work if s not in ("pairs", "triples", "enum", "sweep", "dialects")]
         for sh in range(2):
             jobs.append(({"job": "runs", "name": "shadow%d" % sh, "prop": pid, "tier": tier, "seed": seed, "w": 0, "n": 1, "work": sampled, "only_det": True,
-                          "out": os.path.join(wd, "shadow%d.json" % sh), "wall_s": wall}, 1 + splitmix64(seed, "shs", sh) % 4000000000))
+                          "out": os.path.join(wd, "shadow%d.json" % sh), "wall_s": wall, "env_variant": sh + 1}, 1 + splitmix64(seed, "shs", sh) % 4000000000))
         results, errors = run_workers(jobs, wall)
         if errors:
             raise Harness("; ".join(errors))
@@ -564,6 +564,7 @@ def write_evidence(prop, tier, seed, merged, wall_s, violations, known_hits, nwo
         "faults_fired": merged["faults"],
         "gate": merged["gate"],
         "hashseeds": merged.get("hashseeds", []),
+        "process_environments_compared": "reference tables and shadow re-executions run under 3 environments: default; LC_ALL=C PYTHONUTF8=0 TZ=Pacific/Kiritimati cwd=/; LC_ALL=C.UTF-8 LANG=tr_TR.UTF-8 PYTHONUTF8=1 TZ=America/St_Johns cwd=/tmp",
         "determinism_digests_cross_checked": merged.get("det_checked", 0),
         "workers": nworkers,
         "fresh_reference_results_computed": merged["alone_computed"],
